@@ -31,6 +31,7 @@ VARIABLES
 vars == <<cfg, sub, queue, wg, wk, closed, main, runs, fin, h>>
 
 NW      == IF cfg.W <= 0 THEN 1 ELSE cfg.W       \* NewWorkerPool: <= 0 means 1
+Early   == "early" \in DOMAIN cfg /\ cfg.early    \* scenario with a Close that is not preceded by Wait
 \* queue capacity: 2 * workers (flyt.go:959); a recorded scenario carries the capacity read off the real pool
 Cap     == IF "qcap" \in DOMAIN cfg /\ cfg.qcap >= 1 THEN cfg.qcap ELSE 2 * NW
 Workers == 1..NW
@@ -109,7 +110,7 @@ TaskEnd(w) ==
 
 \* the main goroutine joins the submitters of the round, then calls Wait
 WaitCall ==
-  /\ main.pc = "submitting"
+  /\ main.pc = "submitting" /\ ~(Early /\ main.round = cfg.rounds)
   /\ \A s \in Subs : sub[s].pc = "idle" /\ sub[s].next > cfg.per
   /\ main' = [main EXCEPT !.pc = "waiting"]
   /\ h' = Append(h, [ev |-> "waitcall", round |-> main.round])
@@ -125,6 +126,24 @@ WaitRet ==
        ELSE /\ main' = [main EXCEPT !.pc = "closing"]
             /\ sub' = sub
   /\ UNCHANGED <<cfg, queue, wg, wk, closed, runs, fin>>
+
+\* Close WITHOUT a preceding Wait (outside what C12 promises, modelled because the code allows it): queued tasks may
+\* still be picked up by workers that have not yet looked at `done`, or be left behind for good (EarlyCloseLosesNothing
+\* is violated - a negative control of the self-test); nothing runs twice and every worker still terminates.
+\* (two steps: workers keep starting and finishing tasks between the call and the return of Close)
+CloseEarlyCall ==
+  /\ Early /\ main.pc = "submitting" /\ main.round = cfg.rounds
+  /\ \A s \in Subs : sub[s].pc = "idle" /\ sub[s].next > cfg.per
+  /\ closed' = TRUE
+  /\ main' = [main EXCEPT !.pc = "earlyclosing"]
+  /\ h' = Append(h, [ev |-> "closecall"])
+  /\ UNCHANGED <<cfg, sub, queue, wg, wk, runs, fin>>
+CloseEarlyRet ==
+  /\ main.pc = "earlyclosing"
+  /\ main' = [main EXCEPT !.pc = "closed"]
+  /\ h' = Append(h, [ev |-> "closeret"])
+  /\ UNCHANGED <<cfg, sub, queue, wg, wk, closed, runs, fin>>
+CloseEarly == CloseEarlyCall \/ CloseEarlyRet
 
 \* Close: close(done); close(tasks)
 Close ==
@@ -151,7 +170,7 @@ LeakProbe ==
 Next ==
   \/ \E s \in Subs : SubmitCall(s) \/ SubmitSend(s) \/ SubmitReturn(s)
   \/ \E w \in Workers : Pickup(w) \/ TaskStart(w) \/ TaskEnd(w) \/ Exit(w)
-  \/ WaitCall \/ WaitRet \/ Close \/ LeakProbe
+  \/ WaitCall \/ WaitRet \/ Close \/ CloseEarly \/ LeakProbe
 
 (* ---------------------------------------------------------------------- *)
 (* design-level invariants                                                 *)
@@ -165,9 +184,13 @@ WgExact == wg = Cardinality({s \in Subs : sub[s].pc = "send"}) + Len(queue) + Ca
 \* never more than NW tasks at once
 PoolBound == Cardinality(Running) <= NW
 \* Wait is a barrier: when it has returned, everything submitted before is finished
-WaitBarrier == main.pc \in {"closing", "closed", "done"} => \A t \in DOMAIN runs : runs[t] = 1
+WaitBarrier == (~Early /\ main.pc \in {"closing", "closed", "done"}) => \A t \in DOMAIN runs : runs[t] = 1
 \* ... also between rounds
 RoundBarrier == main.pc = "submitting" => \A t \in DOMAIN runs : t < 1000000 * main.round => runs[t] = 1
 \* nothing is dropped: at the end every task ran exactly once
-ExactlyOnceAtEnd == main.pc = "done" => \A t \in DOMAIN runs : runs[t] = 1
+ExactlyOnceAtEnd == (~Early /\ main.pc = "done") => \A t \in DOMAIN runs : runs[t] = 1
+\* NOT an invariant (negative control): a Close without Wait can leave queued tasks behind
+EarlyCloseLosesNothing == (Early /\ main.pc = "done") => \A t \in DOMAIN runs : runs[t] = 1
+\* what does hold after an early Close: the tasks left behind are exactly those still queued
+EarlyCloseAccounting == (Early /\ main.pc = "done") => {t \in DOMAIN runs : runs[t] = 0} = {queue[k] : k \in 1..Len(queue)}
 =============================================================================
